@@ -11,6 +11,8 @@ API
     .add_function("name" | "Class.method", [param types], self_attrs={attr: type})   translate it and what it calls
     .add_expression("coq_name", ast_expr, [(python expression text, coq binder, type), ...])
                                                   an expression as a function of the listed sub-expressions
+    .add_block("coq_name", [stmts], [(local name or expression text, None, type), ...])
+                                                  a statement list (ending in return on every path) as a function
     .whole_module(entry)                          every top-level statement must be in the subset (C20 mode)
     .check_hygiene()                              the rest of the module does not rebind / mutate what was used
     .emit(title) -> coq text
@@ -26,7 +28,7 @@ Supported subset (everything else raises `Unsupported`):
                  lambdas, recursion, global/nonlocal, yield, with, del.  Methods become functions: `cls` / `self` is
                  dropped, `cls.f(..)` / `Cls.f(..)` are calls of the translated f, `self.attr` may only be READ and
                  becomes an explicit parameter (self_attrs).
-  types          int -> Z, bool, str / bytes -> list Z, None, list[T] (also for tuples used as sequences), dict[K, V]
+  types          int -> Z, bool, str / bytes -> list Z, None, Optional[T] (`x is None` = case split), list[T] (also for tuples used as sequences), dict[K, V]
                  (K in int/str) as association list, fixed-size tuples, external types of the Config (e.g. uuid.UUID),
                  `obj` ("a str or not": PyStr / PyOther, split at function entry), `dyn` = pyval (None / bool / int /
                  float / str / tuple / list / other object) for values whose type is only known at run time:
@@ -37,7 +39,8 @@ Supported subset (everything else raises `Unsupported`):
                  in / not in over list, tuple/list literal, dict; is / is not None; and / or / not (short circuit);
                  x if c else y; len; isinstance(x, C | (C, ...)), type(x) is C for C in str int bool list tuple float;
                  seq[i], [a:b], [::-1], dict[k]; list.index; str.rjust/ljust/strip/lstrip/rstrip/join/startswith/
-                 endswith/encode(); str(x), int(x) (ASCII decimal text), any / all over a generator; list(it), dict(it),
+                 endswith/encode(); str(x), int(x) (ASCII decimal text), any / all over a generator; sorted(it[, key=own function]);
+                 list(it), dict(it),
                  tuple(it); list / tuple / dict literals; f-strings and "..".format(..) with fields {} {0} {:spec},
                  spec = [[fill]align][0][width][d|s] on int / bool / str; one-`for` comprehensions with pure element;
                  iterables str, list, reversed, enumerate, range, zip; own functions (positional, keyword, defaults);
